@@ -4305,6 +4305,15 @@ def check_onepoint(goal, ctx):
     if remain_var != r_vars:
         raise VeriTException("onepoint", "lhs doesn't keep the same variables as rhs")
 
+    def is_value(other, t):
+        """Whether the equation v = other fixes v to the value t given by the
+        context (possibly after replacing the other one-point variables)."""
+        if other == t:
+            return True
+        for v2, t2 in one_val_var.items():
+            other = hol_term.Abs(v2.name, t2.get_type(), other.abstract_over(v2)).subst_bound(t2)
+        return other == t or compare_sym_tm(other, t)
+
     # Substituting left side by the equations must yield the right side
     subst_lhs = l_bd
     for v, tm in one_val_var.items():
@@ -4326,16 +4335,16 @@ def check_onepoint(goal, ctx):
             for v, t in one_val_var.items():
                 found = False
                 for i, conj in enumerate(conjs):
-                    if conj.is_equals() and conj.lhs == v:
+                    if conj.is_equals() and conj.lhs == v and is_value(conj.rhs, t):
                         found = True
                         break
-                    if conj.is_equals() and conj.rhs == v:
+                    if conj.is_equals() and conj.rhs == v and is_value(conj.lhs, t):
                         found = True
                         break
-                if concl.is_not() and concl.arg.is_equals() and concl.arg.lhs == v:
+                if concl.is_not() and concl.arg.is_equals() and concl.arg.lhs == v and is_value(concl.arg.rhs, t):
                     found = True
                     break
-                if concl.is_not() and concl.arg.is_equals() and concl.arg.rhs == v:
+                if concl.is_not() and concl.arg.is_equals() and concl.arg.rhs == v and is_value(concl.arg.lhs, t):
                     found = True
                     break
                 if not found:
@@ -4346,10 +4355,10 @@ def check_onepoint(goal, ctx):
             for v, t in one_val_var.items():
                 found = False
                 for i, disj in enumerate(disjs):
-                    if disj.is_not() and disj.arg.is_equals() and disj.arg.lhs == v:
+                    if disj.is_not() and disj.arg.is_equals() and disj.arg.lhs == v and is_value(disj.arg.rhs, t):
                         found = True
                         break
-                    if disj.is_not() and disj.arg.is_equals() and disj.arg.rhs == v:
+                    if disj.is_not() and disj.arg.is_equals() and disj.arg.rhs == v and is_value(disj.arg.lhs, t):
                         found = True
                         break
                 if not found:
@@ -4360,10 +4369,10 @@ def check_onepoint(goal, ctx):
             for v, t in one_val_var.items():
                 found = False
                 for i, conj in enumerate(conjs):
-                    if conj.is_equals() and conj.lhs == v:
+                    if conj.is_equals() and conj.lhs == v and is_value(conj.rhs, t):
                         found = True
                         break
-                    if conj.is_equals() and conj.rhs == v:
+                    if conj.is_equals() and conj.rhs == v and is_value(conj.lhs, t):
                         found = True
                         break
                 if not found:
@@ -4375,11 +4384,12 @@ def check_onepoint(goal, ctx):
         # body must be in conjunction form, with each equation as a conjunct
         conjs = l_bd.strip_conj()
         for v, t in one_val_var.items():
+            found = False
             for i, conj in enumerate(conjs):
-                if conj.is_equals() and conj.lhs == v:
+                if conj.is_equals() and conj.lhs == v and is_value(conj.rhs, t):
                     found = True
                     break
-                if conj.is_equals() and conj.rhs == v:
+                if conj.is_equals() and conj.rhs == v and is_value(conj.lhs, t):
                     found = True
                     conjs[i] = Eq(conj.rhs, conj.lhs)
                     break
